@@ -175,6 +175,11 @@ static int URI_FUNC(RemoveBaseUriImpl)(URI_TYPE(Uri) * dest,
 					/* NOOP */
 	/* [07/50]	   if (A.authority != Base.authority) then */
 					if (!URI_FUNC(EqualsAuthority)(absSource, absBase)) {
+						if (!URI_FUNC(IsHostSet)(absSource)) {
+							/* Without an authority of its own the reference would
+							 * inherit the one of the base: the scheme has to stay */
+							dest->scheme = absSource->scheme;
+						}
 	/* [08/50]	      T.authority = A.authority; */
 						if (!URI_FUNC(CopyAuthority)(dest, absSource, memory)) {
 							return URI_ERROR_MALLOC;
@@ -183,10 +188,21 @@ static int URI_FUNC(RemoveBaseUriImpl)(URI_TYPE(Uri) * dest,
 						if (!URI_FUNC(CopyPath)(dest, absSource, memory)) {
 							return URI_ERROR_MALLOC;
 						}
+					} else if (!URI_FUNC(IsHostSet)(absSource)
+							&& !absSource->absolutePath
+							&& (absBase->absolutePath || (domainRootMode == URI_TRUE))) {
+						/* A rootless path cannot be reached from an absolute one
+						 * (or by an absolute path) without the scheme */
+						dest->scheme = absSource->scheme;
+						if (!URI_FUNC(CopyPath)(dest, absSource, memory)) {
+							return URI_ERROR_MALLOC;
+						}
 	/* [10/50]	   else */
 					} else {
 	/* [11/50]	      if domainRootMode then */
-						if (domainRootMode == URI_TRUE) {
+						if ((domainRootMode == URI_TRUE)
+								/* ... or absolute path to be reached from a rootless one */
+								|| (absSource->absolutePath && !absBase->absolutePath)) {
 	/* [12/50]	         undef(T.authority); */
 							/* NOOP */
 	/* [13/50]	         if (first(A.path) == "") then */
